@@ -22,7 +22,7 @@ func init() {
 				"path parameter to the key/filename handed to the backing store is identical in Exists and Open (locals inlined, receiver/parameter renamed); (C19.dir) an Exists backed by a file " +
 				"system returns true only under the fact !info.IsDir() (or as a conjunct of the returned expression); (C19.inmem) every access to InMemLoader.files uses the key normalize(param), " +
 				"normalize is path.Join(\"/\", filepath.ToSlash(p)), Open returns a reader over the stored bytes or a non-nil error when absent; (C19.multi) Multi ranges over its loaders front to back, " +
-				"returns at the first success, and construction/AddLoaders preserve argument order (append at the end).",
+				"returns at the first success, and construction/AddLoaders preserve argument order (append at the end). (C19.multi, continued) AddLoaders never copies the contents of another multi loader's list.",
 			NotDecided:  "what the operating system / http.FileSystem / embed.FS return; Multi.Open choosing by first successful Open rather than first Exists (equivalent when members honour the contract); locking is C11.guard.",
 			Assumptions: []string{"os.Stat/fs.Stat/http.File.Stat report IsDir truthfully", "path.Join and filepath.ToSlash/FromSlash behave as documented"},
 			Trusted:     commonTrusted,
